@@ -25,6 +25,7 @@ if TYPE_CHECKING:
 
 # from .generator import msg_as_string, msg_headers_as_string
 from .generator import msg_as_bytes, msg_headers_as_bytes
+from .utils import quoted
 
 logger = logging.getLogger("asimap.fetch")
 
@@ -67,15 +68,19 @@ def encode_header(hdr: str) -> bytes:
     If we are unable to encode it using UTF-8, we will encoded as latin-1, but
     falling back to "?" for all characters that can not be encoded.
     """
+    # NOTE: The value goes inside a quoted string: `"` and `\` have to be
+    #       escaped and it can not contain line breaks (a folded header.)
+    #
+    hdr = str(hdr)
     try:
-        result = hdr.encode("latin-1")
+        result = quoted(hdr).encode("latin-1")
     except UnicodeEncodeError:
         try:
             # maxlinelen=0 means do not wrap
             #
-            result = Header(hdr).encode(maxlinelen=0).encode("latin-1")
+            result = quoted(Header(hdr).encode(maxlinelen=0)).encode("latin-1")
         except UnicodeEncodeError:
-            result = hdr.encode("latin-1", errors="replace")
+            result = quoted(hdr).encode("latin-1", errors="replace")
     return b'"' + result + b'"'
 
 
@@ -570,12 +575,12 @@ class FetchAtt:
         for value in values:
             if "," in value:
                 for lng in value.split(","):
-                    langs.add(f'"{lng.strip()}"')
+                    langs.add(f'"{quoted(lng.strip())}"')
             elif ";" in value:
                 for lng in value.split(";"):
-                    langs.add(f'"{lng.strip()}"')
+                    langs.add(f'"{quoted(lng.strip())}"')
             else:
-                langs.add(f'"{value.strip()}"')
+                langs.add(f'"{quoted(value.strip())}"')
 
         if not langs:
             return b"NIL"
@@ -634,7 +639,7 @@ class FetchAtt:
 
         results = []
         for k, v in params.items():
-            results.append(f'"{k.upper()}" "{v}"')
+            results.append(f'"{quoted(k.upper())}" "{quoted(str(v))}"')
 
         try:
             res = (f"({' '.join(results)})").encode("latin-1")
@@ -678,12 +683,12 @@ class FetchAtt:
 
         params = msg["Content-Disposition"].params  # type: ignore[union-attr]
         if not params:
-            return (f'("{cd}" NIL)').encode("latin-1")
+            return (f'("{quoted(cd)}" NIL)').encode("latin-1")
 
         result = []
         for param, value in params.items():
-            result.append(f'"{param.upper()}" "{value}"')
-        res = f'("{cd.upper()}" ({" ".join(result)}))'
+            result.append(f'"{quoted(param.upper())}" "{quoted(str(value))}"')
+        res = f'("{quoted(cd.upper())}" ({" ".join(result)}))'
         try:
             return res.encode("latin-1")
         except UnicodeEncodeError:
@@ -808,8 +813,8 @@ class FetchAtt:
         #
         maintype = msg.get_content_maintype()
         msg_subtype = msg.get_content_subtype()
-        result.append((f'"{maintype.upper()}"').encode("latin-1"))
-        result.append((f'"{msg_subtype.upper()}"').encode("latin-1"))
+        result.append((f'"{quoted(maintype.upper())}"').encode("latin-1"))
+        result.append((f'"{quoted(msg_subtype.upper())}"').encode("latin-1"))
 
         result.append(self.body_parameters(msg))  # type: ignore[arg-type]
 
@@ -821,7 +826,7 @@ class FetchAtt:
             if "Content-Transfer-Encoding" in msg
             else "7BIT"
         )
-        result.append((f'"{cte}"').encode("latin-1"))
+        result.append((f'"{quoted(str(cte))}"').encode("latin-1"))
 
         # Body size
         payload = msg_as_bytes(msg, render_headers=False)
